@@ -1,4 +1,5 @@
 --@@IMPORT BlueskyVerif.Lemmas.C05Mono
+--@@IMPORT BlueskyVerif.Lemmas.BundlerKeepsCtr
 /-- the counter dictionaries of a bundler state -/
 def ctrOf (s : BState) : Ctr := { seq := s.seq, copy := s.seqCopy, cleared := s.cpCleared }
 
@@ -7,6 +8,7 @@ def ctrOf (s : BState) : Ctr := { seq := s.seq, copy := s.seqCopy, cleared := s.
 structure Sub (s : BState) : Prop where
   seq : ∀ n, ahas s.seq n = true → ahas s.streams n = true
   desc : ∀ n ∈ akeys s.descriptors, ahas s.streams n = true
+  copy : ∀ n, ahas s.seqCopy n = true → ahas s.streams n = true
   nds : (akeys s.seq).Nodup
   ndc : (akeys s.seqCopy).Nodup
 
@@ -31,8 +33,8 @@ theorem Keeps.of_rfl (w : World) {s s' : BState} (h : proj s' = proj s) : Keeps 
   simp only [Prod.mk.injEq] at h
   obtain ⟨h1, h2, h3, h4, h5, h6⟩ := h
   intro hs
-  refine ⟨⟨by rw [h1, h5]; exact hs.seq, by rw [h6, h5]; exact hs.desc, by rw [h1]; exact hs.nds,
-    by rw [h2]; exact hs.ndc⟩, [], by simp [h4], ?_⟩
+  refine ⟨⟨by rw [h1, h5]; exact hs.seq, by rw [h6, h5]; exact hs.desc, by rw [h2, h5]; exact hs.copy,
+    by rw [h1]; exact hs.nds, by rw [h2]; exact hs.ndc⟩, [], by simp [h4], ?_⟩
   simp only [runP, ctrOf, h1, h2, h3]
 
 /-- one logged micro-event -/
@@ -67,7 +69,8 @@ theorem composeEvent_ctr (s : BState) (n : Name) (u : Nat) (dk ext : List Key) (
 theorem sub_seq_aset {s s' : BState} (n : Name) (v : Nat) (hs : Sub s) (hn : ahas s.streams n = true)
     (h1 : s'.seq = aset s.seq n v) (h2 : s'.seqCopy = s.seqCopy) (h3 : s'.streams = s.streams)
     (h4 : s'.descriptors = s.descriptors) : Sub s' := by
-  refine ⟨?_, by rw [h4, h3]; exact hs.desc, by rw [h1]; exact nodup_akeys_aset _ _ _ hs.nds, by rw [h2]; exact hs.ndc⟩
+  refine ⟨?_, by rw [h4, h3]; exact hs.desc, by rw [h2, h3]; exact hs.copy,
+    by rw [h1]; exact nodup_akeys_aset _ _ _ hs.nds, by rw [h2]; exact hs.ndc⟩
   intro m hm
   rw [h3]
   rw [h1] at hm
@@ -101,29 +104,131 @@ theorem composeEvent_commit (w : World) (s : BState) (n : Name) (u : Nat) (dk ex
     have hs1 : Sub r.st := sub_seq_aset n (c + 1) hs (hs.seq n (by simp [ahas, hc])) h1 h3 h5 h6
     unfold commit
     simp only [hg]
-    refine ⟨⟨hs1.seq, hs1.desc, hs1.nds, nodup_akeys_aset _ _ _ hs1.ndc⟩, [.emit n c false, .commit n], ?_, ?_⟩
+    have hcp : ∀ m, ahas (aset r.st.seqCopy n (c + 1)) m = true → ahas r.st.streams m = true := by
+      intro m hm
+      by_cases e : n = m
+      · subst e; exact hs1.seq n (by simp [ahas, hg])
+      · simp only [ahas, aget_aset_ne _ _ _ _ e] at hm; exact hs1.copy m hm
+    refine ⟨⟨hs1.seq, hs1.desc, hcp, hs1.nds, nodup_akeys_aset _ _ _ hs1.ndc⟩, [.emit n c false, .commit n], ?_, ?_⟩
     · simp only [h2, hsrc]; simp
     · simp [runP, stepP, ctrOf, hc, h1, h3, h4]
+
+/-- entries of a dictionary with distinct keys all agree with the dictionary -/
+theorem filter_changed_nil (m : List (Name × Nat)) (h : (akeys m).Nodup) :
+    m.filter (fun kv => aget m kv.1 != some kv.2) = [] := by
+  apply List.filter_eq_nil_iff.2
+  intro kv hkv
+  have := aget_of_mem_nodup m kv.1 kv.2 h hkv
+  simp [this]
+
+/-- after `d[n] = v'` exactly the entry of `n` may differ from the old dictionary -/
+theorem filter_changed_aset (m : List (Name × Nat)) (n : Name) (v v' : Nat) (h : (akeys m).Nodup)
+    (hv : aget m n = some v) :
+    (aset m n v').filter (fun kv => aget m kv.1 != some kv.2) = if v' = v then [] else [(n, v')] := by
+  induction m with
+  | nil => simp at hv
+  | cons q t ih =>
+    obtain ⟨k0, v0⟩ := q
+    simp only [akeys, List.map_cons, List.nodup_cons] at h
+    by_cases h0 : k0 = n
+    · subst h0
+      simp only [aget, if_true, Option.some.injEq] at hv; subst hv
+      simp only [aset, if_true, List.filter_cons, aget, if_true]
+      have ht : t.filter (fun kv => (if k0 = kv.1 then some v0 else aget t kv.1) != some kv.2) = [] := by
+        apply List.filter_eq_nil_iff.2
+        intro kv hkv
+        have hne : k0 ≠ kv.1 := fun e => h.1 (e ▸ List.mem_map.2 ⟨kv, hkv, rfl⟩)
+        have := aget_of_mem_nodup t kv.1 kv.2 h.2 hkv
+        simp [hne, this]
+      rw [ht]
+      by_cases e : v' = v0
+      · subst e; simp
+      · have e' : ¬ v0 = v' := fun h => e h.symm
+        simp [e, e']
+    · simp only [aget, h0, if_false] at hv
+      simp only [aset, h0, if_false, List.filter_cons, aget, if_true]
+      have hrec := ih h.2 hv
+      have hne : n ∉ akeys t → False := fun hn => by
+        have := (aget_none_iff_not_mem_keys t n).2 hn; rw [this] at hv; cases hv
+      have hfil : (aset t n v').filter (fun kv => (if k0 = kv.1 then some v0 else aget t kv.1) != some kv.2) =
+          (aset t n v').filter (fun kv => aget t kv.1 != some kv.2) := by
+        apply List.filter_congr
+        intro kv hkv
+        have hne : k0 ≠ kv.1 := by
+          intro e
+          rcases mem_aset _ _ _ _ hkv with h1 | h1
+          · exact h.1 (e ▸ List.mem_map.2 ⟨kv, h1, rfl⟩)
+          · rw [h1] at e; exact h0 e
+        simp [hne]
+      simp only [bne_self_eq_false, Bool.false_eq_true, if_false]
+      rw [hfil, hrec]
+
+/-- what `collect`'s inner part does to the counters: nothing, or one `bump` -/
+theorem collectInner_ctr (w : World) (s : BState) (objs : List Obj) (nm : Option Name) (mis : List Mis) :
+    proj (collectInner w s objs nm mis).st = proj s ∨
+    ∃ n c d, aget s.seq n = some c ∧ (collectInner w s objs nm mis).st.seq = aset s.seq n (c + d) ∧
+      (collectInner w s objs nm mis).st.log = s.log ++ [.bump n c d] ∧
+      (collectInner w s objs nm mis).st.seqCopy = s.seqCopy ∧
+      (collectInner w s objs nm mis).st.cpCleared = s.cpCleared ∧
+      (collectInner w s objs nm mis).st.streams = s.streams ∧
+      akeys (collectInner w s objs nm mis).st.descriptors = akeys s.descriptors := by
+  unfold collectInner
+  split
+  · exact Or.inl rfl
+  · split
+    · exact Or.inl rfl
+    · split
+      · left
+        exact (KeepsCtr.keeps_andThen w _ _ _ (KeepsCtr.keeps_ensureCached w _ _ true) (fun s' => rfl))
+      · exact Or.inl rfl
+    · rename_i n hn
+      unfold collectInto
+      simp only
+      generalize hp : packExternalAssets _ n _ = p
+      have hpk : proj p.st = proj s := by
+        rw [← hp]
+        exact KeepsCtr.keeps_packExternalAssets w _ n _
+      unfold proj at hpk
+      simp only [Prod.mk.injEq] at hpk
+      obtain ⟨k1, k2, k3, k4, k5, k6⟩ := hpk
+      unfold collectBump
+      split
+      · left; unfold proj; simp [k1, k2, k3, k4, k5, k6]
+      · split
+        · left; unfold proj; simp [k1, k2, k3, k4, k5, k6]
+        · rename_i c hc
+          right
+          simp only [collectAdvancesByDifference, if_true, Res.ok_st]
+          exact ⟨n, c, p.prev, by rw [← k1]; exact hc, by rw [k1], by rw [k4], k2, k3, k5, k6⟩
 
 --@@OVERRIDE keeps_commit
 theorem keeps_commit (w : World) (s : BState) (n : Name) : Keeps w s (commit s n) := by
   unfold commit
   split
   · rename_i c hc
-    refine Keeps.of_ev w (.commit n) rfl (fun hs => ⟨⟨hs.seq, hs.desc, hs.nds, nodup_akeys_aset _ _ _ hs.ndc⟩, ?_⟩)
-    simp [stepP, ctrOf, hc]
+    refine Keeps.of_ev w (.commit n) rfl (fun hs => ⟨⟨hs.seq, hs.desc, ?_, hs.nds, nodup_akeys_aset _ _ _ hs.ndc⟩, ?_⟩)
+    · intro m hm
+      by_cases e : n = m
+      · subst e; exact hs.seq n (by simp [ahas, hc])
+      · simp only [ahas, aget_aset_ne _ _ _ _ e] at hm; exact hs.copy m hm
+    · simp [stepP, ctrOf, hc]
   · rename_i hc
-    refine Keeps.of_ev w (.commit n) rfl (fun hs => ⟨⟨hs.seq, hs.desc, hs.nds, hs.ndc⟩, ?_⟩)
+    refine Keeps.of_ev w (.commit n) rfl (fun hs => ⟨⟨hs.seq, hs.desc, hs.copy, hs.nds, hs.ndc⟩, ?_⟩)
     simp [stepP, ctrOf, hc]
 
 --@@OVERRIDE keeps_resetCp
 theorem keeps_resetCp (w : World) (s : BState) : Keeps w s (resetCp s) := by
-  refine Keeps.of_ev w .reset rfl (fun hs => ⟨⟨hs.seq, hs.desc, hs.nds, nodup_akeys_aupdate _ _ hs.ndc⟩, ?_⟩)
-  simp [stepP, ctrOf, resetCp]
+  refine Keeps.of_ev w .reset rfl (fun hs => ⟨⟨hs.seq, hs.desc, ?_, hs.nds, nodup_akeys_aupdate _ _ hs.ndc⟩, ?_⟩)
+  · intro m hm
+    simp only [resetCp, ahas, aget_aupdate _ _ _ hs.nds] at hm
+    cases hq : aget s.seq m with
+    | some v => exact hs.seq m (by simp [ahas, hq])
+    | none => simp only [hq] at hm; exact hs.copy m hm
+  · simp [stepP, ctrOf, resetCp]
 
 --@@OVERRIDE keeps_clearCp
 theorem keeps_clearCp (w : World) (s : BState) : Keeps w s (clearCp s) := by
-  refine Keeps.of_ev w .clear rfl (fun hs => ⟨⟨hs.seq, hs.desc, hs.nds, List.nodup_nil⟩, ?_⟩)
+  refine Keeps.of_ev w .clear rfl (fun hs => ⟨⟨hs.seq, hs.desc, fun m hm => by simp [clearCp, ahas] at hm, hs.nds, List.nodup_nil⟩, ?_⟩)
   simp [stepP, ctrOf, clearCp]
 
 --@@OVERRIDE keeps_saveEvent
@@ -164,7 +269,7 @@ theorem keeps_prepareStream (w : World) (s : BState) (n : Name) (objsDks : List 
     unfold prepareFinish
     simp only [hsq, if_true]
     intro hs
-    refine ⟨⟨hs.seq, ?_, hs.nds, hs.ndc⟩, [], by simp [prepareStore], rfl⟩
+    refine ⟨⟨hs.seq, ?_, hs.copy, hs.nds, hs.ndc⟩, [], by simp [prepareStore], rfl⟩
     intro m hm
     simp only [prepareStore, akeys_aset] at hm
     split at hm
@@ -187,7 +292,7 @@ theorem keeps_prepareStream (w : World) (s : BState) (n : Name) (objsDks : List 
           have hsq' : ahas s.seq n = false := by simpa using hsq
           unfold prepareFinish
           simp only [hsq', Bool.false_eq_true, if_false, Res.ok_st]
-          refine Keeps.of_ev w (.ensure n) rfl (fun hs => ⟨⟨?_, ?_, nodup_akeys_aset _ _ _ hs.nds,
+          refine Keeps.of_ev w (.ensure n) rfl (fun hs => ⟨⟨?_, ?_, ?_, nodup_akeys_aset _ _ _ hs.nds,
             nodup_akeys_aset _ _ _ hs.ndc⟩, ?_⟩)
           · intro m hm
             simp only [prepareStore] at hm ⊢
@@ -201,6 +306,11 @@ theorem keeps_prepareStream (w : World) (s : BState) (n : Name) (objsDks : List 
             · rcases List.mem_append.1 hm with h | h
               · exact hs.desc m h
               · simp at h; subst h; exact hst
+          · intro m hm
+            simp only [prepareStore] at hm ⊢
+            by_cases e : n = m
+            · subst e; exact hst
+            · simp only [ahas, aget_aset_ne _ _ _ _ e] at hm; exact hs.copy m hm
           · simp [stepP, ctrOf, hsq', prepareStore, firstSeq]
     · rename_i hks
       -- a new stream: registered, counter := 1, then stored
@@ -210,7 +320,7 @@ theorem keeps_prepareStream (w : World) (s : BState) (n : Name) (objsDks : List 
           cases h : ahas s.seq n with
           | false => rfl
           | true => have := hs.seq n h; simp [ahas, hks] at this
-        refine ⟨⟨?_, ?_, nodup_akeys_aset _ _ _ hs.nds, hs.ndc⟩, ?_⟩
+        refine ⟨⟨?_, ?_, ?_, nodup_akeys_aset _ _ _ hs.nds, hs.ndc⟩, ?_⟩
         · intro m hm
           simp only at hm ⊢
           by_cases e : n = m
@@ -221,6 +331,11 @@ theorem keeps_prepareStream (w : World) (s : BState) (n : Name) (objsDks : List 
           by_cases e : n = m
           · subst e; simp [ahas]
           · simp only [ahas, aget_aset_ne _ _ _ _ e]; exact hs.desc m hm
+        · intro m hm
+          simp only at hm ⊢
+          by_cases e : n = m
+          · subst e; simp [ahas]
+          · simp only [ahas, aget_aset_ne _ _ _ _ e]; exact hs.copy m hm
         · simp [stepP, ctrOf, hsq, firstSeq]
       · simp [ahas]
       · simp [ahas]
@@ -234,7 +349,67 @@ theorem keeps_reprepareOne (w : World) (s : BState) (o : Obj) (n : Name) :
   · split
     · refine Keeps.trans w _ _ _ ?_ (keeps_prepareStream w _ n _)
       intro hs
-      refine ⟨⟨hs.seq, ?_, hs.nds, hs.ndc⟩, [], by simp, rfl⟩
+      refine ⟨⟨hs.seq, ?_, hs.copy, hs.nds, hs.ndc⟩, [], by simp, rfl⟩
       intro m hm
       exact hs.desc m ((akeys_aerase_sublist _ _).subset hm)
     · exact Keeps.refl w s
+
+--@@OVERRIDE keeps_closeRunTail
+theorem keeps_closeRunTail (w : World) (s : BState) (e r : String) : Keeps w s (closeRunTail s e r).st := by
+  have aux : ∀ (s1 : BState), proj s1 = proj s → Keeps w s { resetCp s1 with runOpen := false } := by
+    intro s1 h
+    exact Keeps.trans w s s1 _ (Keeps.of_rfl w h)
+      (Keeps.trans w s1 (resetCp s1) _ (keeps_resetCp w s1) (Keeps.of_rfl w rfl))
+  unfold closeRunTail
+  split
+  · exact Keeps.refl w s
+  · simp only [Res.ok_st]
+    split
+    · exact aux _ rfl
+    · exact Keeps.of_rfl w rfl
+
+--@@OVERRIDE keeps_collect
+theorem keeps_collect (w : World) (s : BState) (objs : List Obj) (nm : Option Name) (mis : List Mis) :
+    Keeps w s (collect w s objs nm mis).st := by
+  unfold collect
+  simp only [collectCommitsChanged, if_true]
+  intro hs
+  rcases collectInner_ctr w s objs nm mis with hp | ⟨n, c, d, hc, h1, h2, h3, h4, h5, h6⟩
+  · -- nothing changed: nothing is committed
+    unfold proj at hp
+    simp only [Prod.mk.injEq] at hp
+    obtain ⟨k1, k2, k3, k4, k5, k6⟩ := hp
+    have : commitChanged s.seq (collectInner w s objs nm mis).st = (collectInner w s objs nm mis).st := by
+      unfold commitChanged
+      rw [k1, filter_changed_nil s.seq hs.nds]; rfl
+    rw [this]
+    exact Keeps.of_rfl w (by unfold proj; simp [k1, k2, k3, k4, k5, k6]) hs
+  · generalize (collectInner w s objs nm mis).st = t at *
+    have hsub : Sub t := ⟨by
+        intro m hm
+        rw [h5]; rw [h1] at hm
+        by_cases e : n = m
+        · subst e; exact hs.seq n (by simp [ahas, hc])
+        · simp only [ahas, aget_aset_ne _ _ _ _ e] at hm; exact hs.seq m hm,
+      by rw [h6, h5]; exact hs.desc, by rw [h3, h5]; exact hs.copy, by rw [h1]; exact nodup_akeys_aset _ _ _ hs.nds,
+      by rw [h3]; exact hs.ndc⟩
+    unfold commitChanged
+    rw [h1, filter_changed_aset s.seq n c (c + d) hs.nds hc]
+    by_cases hd : d = 0
+    · subst hd
+      simp only [Nat.add_zero, if_true, List.map_nil, List.foldl_nil]
+      refine ⟨hsub, [.bump n c 0], h2, ?_⟩
+      simp [runP, stepP, ctrOf, hc, h1, h3, h4]
+    · have hne : ¬ (c + d = c) := by omega
+      simp only [hne, if_false, List.map_cons, List.map_nil, List.foldl_cons, List.foldl_nil]
+      have hg : aget t.seq n = some (c + d) := by rw [h1]; exact aget_aset_same _ _ _
+      unfold commit
+      simp only [hg]
+      have hcp : ∀ m, ahas (aset t.seqCopy n (c + d)) m = true → ahas t.streams m = true := by
+        intro m hm
+        by_cases e : n = m
+        · subst e; exact hsub.seq n (by simp [ahas, hg])
+        · simp only [ahas, aget_aset_ne _ _ _ _ e] at hm; exact hsub.copy m hm
+      refine ⟨⟨hsub.seq, hsub.desc, hcp, hsub.nds, nodup_akeys_aset _ _ _ hsub.ndc⟩, [.bump n c d, .commit n], ?_, ?_⟩
+      · simp [h2]
+      · simp [runP, stepP, ctrOf, hc, h1, h3, h4, hd]
